@@ -54,12 +54,17 @@ def sums_of(ctx: Ctx, fi: FunctionInfo, **kw) -> List[PathSummary]:
                     return True
         return False
 
+    variant = kw.pop("variant", None)  # names a non-default callable option set (part of the cache key)
+    also_nonempty = kw.pop("also_nonempty", None)
+    if also_nonempty is not None:
+        base_ne = nonempty
+        kw["nonempty"] = lambda fornode, env: base_ne(fornode, env) or also_nonempty(fornode, env)
     kw.setdefault("nonempty", nonempty)
     kw.setdefault("opaque", _opaque_default)
     cache = getattr(ctx, "_sums_cache", None)
     if cache is None:
         cache = ctx._sums_cache = {}
-    k = (fi.fq, tuple(sorted((a, repr(b)) for a, b in kw.items() if not callable(b))))
+    k = (fi.fq, variant, tuple(sorted((a, repr(b)) for a, b in kw.items() if not callable(b))))
     if k not in cache:
         recs = {fq.rsplit(".", 1)[-1]: [f for f, _ in fields] for fq, fields in ctx.p.records().items()}
         kw.setdefault("pure_calls", set(recs) | {"Beat", "Decimal", "Fraction", "MSDParameter", "Beat.from_str", "Beat.tick"})  # immutable value types
